@@ -156,15 +156,15 @@ Lemma as_of_same k k2 : ia p k = ia p k2 -> asof k = asof k2.
 Proof. intros E. unfold as_of. now rewrite E. Qed.
 
 (** ** the egress interface of the router at the claimed position is down / unknown *)
-Theorem oracle_fault hosts fia frt cf tc flow next qoff ka kc how srt raw r pt :
+Theorem oracle_fault hosts fia frt cf tc flow next qnext qoff ka kc how srt raw r pt :
   let fa := Some (fia, (frt, cf)) in
   ScmpReturn.pos_ok t p ka how = true -> (kc < n)%nat -> ScmpReturn.no_revisit p kc = true ->
   ScmpReturn.clean_fault t p ScmpReturn.PNone fa ka kc how = true ->
-  let m := ScmpReturn.model_q macq t hosts now now' p pp ScmpReturn.PNone fa tc flow next qoff srt raw in
+  let m := ScmpReturn.model_q macq t hosts now now' p pp ScmpReturn.PNone fa tc flow next qnext qoff srt raw in
   (exists res, ScmpReturn.m_stop m = Some (ScmpReturn.pos_loc t p ka how, ScmpReturn.pos_pkt p pp ka how, res)) ->
   ScmpReturn.m_reply m = RouterScmp.SReply r ->
-  ScmpReturn.reply_port (RouterScmp.r_l4 r) next qoff = Some pt ->
-  ScmpReturn.c10_ok t p pp ScmpReturn.PNone ka kc how None next qoff (ScmpReturn.pos_loc t p ka how)
+  ScmpReturn.reply_port (RouterScmp.r_l4 r) qnext qoff = Some pt ->
+  ScmpReturn.c10_ok t p pp ScmpReturn.PNone ka kc how None qnext qoff (ScmpReturn.pos_loc t p ka how)
                     (ScmpReturn.m_reply m) (ScmpReturn.m_back m) = true.
 Proof.
   intros fa PO Hkc NR CF m MS MR RP.
@@ -210,7 +210,7 @@ Proof.
     rewrite E0 in FA. unfold ScmpReturn.pos_pkt, lp, ScmpReturn.pos_loc in P. cbn [l_ing l_rtr] in P.
     unfold lp, ScmpReturn.pos_loc in FA. cbn [l_rtr] in FA.
     rewrite FA in P. injection P as <- <- <-.
-    eapply (oracle_core c InInt _ _ _ r ScmpReturn.AHost 0 0 lp next qoff pt);
+    eapply (oracle_core c InInt _ _ _ r ScmpReturn.AHost 0 0 lp qnext qoff pt);
       [lia|exact I| |exact MR|exact Cia|exact Hret|exact RP|split; reflexivity].
     reflexivity.
   - (* from the previous AS *)
@@ -227,7 +227,7 @@ Proof.
     rewrite FA in P. injection P as <- <- <-.
     pose proof (ret_hop_eff ka Hk1 (or_intror Cp)) as RE.
     pose proof (ret_hop_ia mac t p pp HG now' (eff ka) Hkc) as RI. rewrite RE in RI.
-    eapply (oracle_core c (InExt (tr_in p ka)) _ _ _ r ScmpReturn.AExt ka (eff ka) lp next qoff pt);
+    eapply (oracle_core c (InExt (tr_in p ka)) _ _ _ r ScmpReturn.AExt ka (eff ka) lp qnext qoff pt);
       [exact Hkc|exact I| |exact MR|now rewrite <- RI|exact Hret|exact RP|].
     + reflexivity.
     + rewrite RE. split; [exact K1|]. split; [exact Cp|]. split; [|reflexivity].
@@ -247,7 +247,7 @@ Proof.
                   (as_of_same _ _ RI) Hne Fif) as FA.
     unfold ScmpReturn.pos_pkt in P. rewrite Elp in P. cbn [l_rtr l_ing] in P.
     rewrite FA in P. injection P as <- <- <-.
-    eapply (oracle_core c (InSib (in_rtr (ret_hop ka) + 1)) _ _ _ r ScmpReturn.ASib ka ka lp next qoff pt);
+    eapply (oracle_core c (InSib (in_rtr (ret_hop ka) + 1)) _ _ _ r ScmpReturn.ASib ka ka lp qnext qoff pt);
       [exact Hkc|exact I| |exact MR|exact Cia|exact Hret|exact RP|].
     + reflexivity.
     + repeat split; assumption.
